@@ -58,8 +58,9 @@ def neighbor_for(session: dict):
             local_as=65000,
             peer_as=session['peer_as'],
             families=fams,
-            capability={'asn4': 'enable', 'add-path': 'send/receive' if ap else 'disable', 'aigp': 'enable'},
+            capability={'asn4': 'enable', 'add-path': 'send/receive' if ap else 'disable', 'aigp': 'enable', 'nexthop': 'enable' if session.get('extnh') else 'disable'},
             addpath_families=ap or None,
+            nexthop=[f'{FAMILY_TEXT[tuple(f)]} ipv6' for f in session.get('extnh', [])] or None,
             extra='  adj-rib-in true;',
         )
         conf, n = exa.neighbor_from_text(text)
@@ -318,6 +319,8 @@ def check(case: dict) -> dict:
                 classes.append('addpath-session')
             if 14 in raw['attrs']:
                 classes.append(f'mp_reach:{raw["attrs"][14]["afi"]}/{raw["attrs"][14]["safi"]}')
+                if raw['attrs'][14]['afi'] == 1 and any(':' in h for h in raw['attrs'][14].get('nexthop', [])):
+                    classes.append('rfc8950:ipv6-next-hop-for-ipv4-nlri')
             if 15 in raw['attrs']:
                 classes.append(f'mp_unreach:{raw["attrs"][15]["afi"]}/{raw["attrs"][15]["safi"]}')
         else:
